@@ -32,6 +32,11 @@ CHECKS = {
             "Random source records with up to 6 containers of both classes are merged while open; the merged container is compared with the overlay view, read with plain h5py, checked for identity, and a follow-up patch of the source is opened on both chains.",
             "follow-up patches are random data operations; stub refusal only for IH5MFRecord",
             "4 C05"),
+    "C11": ("fault_enumeration",
+            "crash injection: directory snapshots at API boundaries, every torn prefix of the committing user-block write, sys.monitoring LINE failpoints with SIGKILL in forked children, random-instant SIGKILL; recovery oracle on the crashed directory",
+            "Per generated record one patch cycle is crashed at every API boundary, every prefix of the commit's user-block write, (quick: all commit-path + sampled; thorough: all) Python line boundaries inside the ih5 package, and at random instants during large writes; the crashed directory is judged by ledger equality, committed-set reopen and the three allowed outcomes for the complete set.",
+            "process kill only (page cache survives); expected new state from an uncrashed dry run of the same deterministic cycle",
+            "4 C11"),
 }
 
 NOT_YET = {
